@@ -58,9 +58,15 @@ types, `to_string()` / `format!("{}", x)` through them (`Display` of `BddVariabl
 decimal printer); `read_to_string` (the read sizes chosen by std are an environment parameter of the reader); type
 parameters with a `ToString` bound (`[ToString E]`), `map_err`, `Option::map` / `unwrap_or_else` whose closure can panic.
 Generated names never shadow Lean core names (`and`, `or`, `xor`, … get the file stem as a prefix: `parser__and`).
-NOT TRANSLATED (constructs): `BddVariableSetBuilder::make` (const generics), `cardinality` (f64), the owned iterator twins
-(`OwnedBddPathIterator`, `OwnedBddSatisfyingValuations`: textual duplicates of the borrowed ones), `bdd!` (macro_rules),
-`BooleanExpression::support_set` (or-patterns that bind), serde impls.
+FOURTH BATCH (Gen/Algo4.lean) additionally uses: `x.into()` through the crate's `impl From<typeof x> for <expected type>`;
+`f.write_fmt(format_args!(…))` (= `write!`); `i32::from(bool)` (0/1); tuple structs (products of their positional fields;
+`.0`, constructor calls, also `super::Name(..)`); `T: IntoIterator<Item = X>` (a materialised sequence); `impl … for &str`;
+or-patterns whose alternatives bind the same names; several impls of one method name for one type (target index; numbered
+Lean names `stem__Name_2`). Gen/COVERAGE.md (and the header of Gen/Algo4.lean) lists EVERY function of the crate outside test
+code with the batch that translates it or the reason why not — produced by trying to translate each of them.
+NOT TRANSLATED (constructs): `Bdd::cardinality` (f64), `BddVariableSetBuilder::make` (const generics), functions that return a
+`&mut` (`BddPartialValuation::mut_cell`, the two `IndexMut::index_mut`; `set_value`/`unset_value` are shimmed), `bdd!`
+(macro_rules, Gen/MacroRules.lean), serde impls (feature-gated).
 SEMANTIC CONVENTIONS: integers are `Nat`; `a - b` panics on underflow; `as u16`/`as u32` truncate; `+`, `*`, `<<` are
 not range-checked; `debug_assert!` is a comment unless --debug-assertions (the harness is a release build);
 `format!` keeps only its template (messages are never compared); hash-map capacity / hasher are dropped.
@@ -203,6 +209,45 @@ TARGETS3 = [
     (SE, None, 'lift_err'), (SE, 'Bdd', 'write_as_string'), (SE, 'Bdd', 'read_as_string'), (SE, 'Bdd', 'from_string'), (SE, 'Bdd', 'fmt'),
 ]
 
+PI = 'src/_impl_bdd_path_iterator.rs'
+MB = 'src/_macro_bdd.rs'
+OF = 'src/op_function.rs'
+LI = 'src/lib.rs'
+VC = 'src/_impl_iterator_valuations_of_clause.rs'
+# fourth batch (Gen/Algo4.lean): the owned iterator twins and the rest of the public API that is expressible
+TARGETS4 = [
+    (PI, 'OwnedBddPathIterator', 'new'), (PI, 'OwnedBddPathIterator', 'from'), (PI, 'Bdd', 'from'), (PI, 'OwnedBddPathIterator', 'next'),
+    (SV, 'Bdd', 'into_sat_valuations'), (SV, 'Bdd', 'into_sat_clauses'), (SV, 'OwnedBddSatisfyingValuations', 'next'),
+    (SV, 'OwnedBddSatisfyingValuations', 'from'), (SV, 'Bdd', 'from'),
+    (UT, 'Bdd', 'to_nodes'), (BV, 'BddValuation', 'vector'), (BV, 'BddValuation', 'index'), (BV, 'BddValuation', 'fmt'),
+    (BV, 'BddValuationIterator', 'new'), (BV, 'BddValuationIterator', 'next'),
+    (PV, 'BddPartialValuation', 'default'), (PV, 'BddPartialValuation', 'index'),
+    (VC, 'ValuationsOfClauseIterator', 'new_unconstrained'),
+    (VS, 'BddVariableSet', 'variable_name_assignment'), (VS, 'BddVariableSet', 'fmt'), (VS, 'BddVariableSet', 'from_iter'),
+    (VS, 'BddVariableSet', 'from', 0), (VS, 'BddVariableSet', 'from', 1),
+    (VB, 'BddVariableSetBuilder', 'default'),
+    ('src/_impl_bdd_pointer.rs', 'BddPointer', 'fmt'), ('src/_impl_bdd_variable.rs', 'BddVariable', 'fmt'),
+    (MB, 'BddVariable', 'into_bdd'), (MB, 'Bdd', 'into_bdd', 0), (MB, 'Bdd', 'into_bdd', 1), (MB, 'str', 'into_bdd'),
+    (OF, None, 'and'), (OF, None, 'or'), (OF, None, 'imp'), (OF, None, 'iff'), (OF, None, 'xor'), (OF, None, 'and_not'),
+    (BE, 'BooleanExpression', 'support_set'),
+]
+
+HEADER4 = '''import BddVerif.Gen.Algo3
+/-!
+GENERATED by tools/rust2lean.py from the Rust sources of the library — DO NOT EDIT; regenerated on every run.
+Fourth batch of translated functions (same conventions as Gen/Algo.lean … Gen/Algo3.lean, whose definitions it reuses):
+the OWNED iterator twins (`OwnedBddPathIterator`, `OwnedBddSatisfyingValuations`: hand-maintained textual copies of the
+borrowed iterators in the Rust source, translated independently of them), and the remaining expressible public items.
+
+%s
+-/
+set_option linter.unusedVariables false
+set_option linter.constructorNameAsVariable false
+namespace B.Gen.Algo4
+open B B.Gen B.Gen.Algo B.Gen.Algo2 B.Gen.Algo3
+attribute [local instance 10000] Rust.monadOutcomeInline
+'''
+
 HEADER3 = '''import BddVerif.Gen.Algo2
 import BddVerif.Gen.RustShimStr
 /-!
@@ -236,13 +281,14 @@ attribute [local instance 10000] Rust.monadOutcomeInline
 '''
 
 
-def find_target(tr, file, owner, name):
+def find_target(tr, file, owner, name, index=0):
     tr.crate.load(file)
     pool = tr.crate.methods.get((owner, name), []) if owner else tr.crate.free.get(name, [])
     cands = [c for c in pool if c.file == file]
     if owner:
-        # the borrowed iterator and the owned one have textually identical `next`; the first impl in the file wins
-        cands = cands[:1] if cands else cands
+        # several impls of one method name for one type in one file (`impl From<A> for T`, `impl From<B> for T`):
+        # `index` picks the impl in source order (default: the first)
+        cands = cands[index:index + 1]
     if len(cands) != 1:
         raise R2LError('target function %s%s not found (or ambiguous)' % ((owner + '::') if owner else '', name), file)
     return cands[0]
@@ -264,14 +310,16 @@ def _render(header, ns, stats, output):
 _CACHE = {}
 
 
-def generate_all(repo, only=None, debug_assertions=False, second=True, tolerant=False, third=False):
+def generate_all(repo, only=None, debug_assertions=False, second=True, tolerant=False, third=False, fourth=False):
     """returns {'Algo.lean': (text, stats), 'Algo2.lean': (text, stats)}; raises R2LError.
     Algo.lean holds TARGETS and their callees, Algo2.lean (which imports it) whatever TARGETS2 needs in addition."""
     tolerant = tolerant or bool(os.environ.get('R2L_TOLERANT'))
-    key = (os.path.abspath(repo), tuple(sorted(only)) if only else None, debug_assertions, second, tolerant, third)
+    third = third or fourth
+    key = (os.path.abspath(repo), tuple(sorted(only)) if only else None, debug_assertions, second, tolerant, third, fourth)
     if key in _CACHE:
         return _CACHE[key]
     tr = Translator(repo, debug_assertions=debug_assertions)
+    tr.phase = 1
     for file, owner, name in TARGETS:
         if only and name not in only:
             continue
@@ -312,7 +360,30 @@ def generate_all(repo, only=None, debug_assertions=False, second=True, tolerant=
                             tr.inprog.clear(); tr.stack[:] = []; tr.group_of.clear(); tr.pending.clear()
                     else:
                         tr.translate(item)
-            res['Algo3.lean'] = (_render(HEADER3, 'B.Gen.Algo3', tr.stats[n2:], tr.output[n2:]), tr.stats[n2:])
+            n3 = len(tr.output)
+            res['Algo3.lean'] = (_render(HEADER3, 'B.Gen.Algo3', tr.stats[n2:n3], tr.output[n2:n3]), tr.stats[n2:n3])
+            if fourth:
+                tr.phase = 4
+                for tgt in TARGETS4:
+                    file, owner, name = tgt[:3]
+                    if only and name not in only:
+                        continue
+                    item = find_target(tr, file, owner, name, *tgt[3:])
+                    if item not in tr.sigs:
+                        if tolerant:
+                            try:
+                                tr.translate(item)
+                            except R2LError as e:
+                                sys.stderr.write('  [skip] %s\n' % e)
+                                tr.inprog.clear(); tr.stack[:] = []; tr.group_of.clear(); tr.pending.clear()
+                        else:
+                            tr.translate(item)
+                n4 = len(tr.output)
+                cov = coverage(tr)
+                res['COVERAGE.md'] = (cov, [])
+                summary = cov.split('## Functions')[0].replace('# ', '').strip()
+                table = '\n'.join(l for l in cov.split('\n') if l.startswith('|'))
+                res['Algo4.lean'] = (_render(HEADER4 % (summary + '\n\n' + table).replace('-/', '- /'), 'B.Gen.Algo4', tr.stats[n3:n4], tr.output[n3:n4]), tr.stats[n3:n4])
     _CACHE[key] = res
     return res
 
@@ -325,6 +396,60 @@ def generate(repo, only=None, debug_assertions=False):
 def generate2(repo, only=None, debug_assertions=False):
     """Gen/Algo2.lean: returns (lean text, stats); raises R2LError"""
     return generate_all(repo, only, debug_assertions, second=True)['Algo2.lean']
+
+
+def coverage(tr):
+    """COVERAGE.md: every function of the crate (non-test code) → the batch that translates it, or why it is not translated"""
+    from rust2lean_lib.fntr import SHIM_METHODS, SHIM_REJECT
+    rows = []
+    counts = {}
+    items = []
+    for rel, (src, fns, structs) in sorted(tr.crate.files.items()):
+        for f in sorted(fns, key=lambda x: x.line):
+            items.append(f)
+    tr.phase = 5
+    for f in items:
+        key = (f.owner, f.name)
+        what = f.qual() + (' (impl %s)' % f.trait if f.trait else '')
+        if f in tr.sigs and tr.batch_of.get(f, 5) <= 4:
+            b = tr.batch_of[f]
+            status, note = 'Algo%s.lean' % ('' if b == 1 else b), '`%s`' % tr.sigs[f].lean
+        elif key in SHIM_METHODS and f.trait is None:
+            status, note = 'shim', '`%s` in Gen/RustShim.lean (writes through `mut_cell`, which returns a `&mut`)' % SHIM_METHODS[key][0]
+        else:
+            try:
+                if f not in tr.sigs:
+                    tr.translate(f)
+                status, note = 'expressible, not in a batch', '`%s` translates; add it to a TARGETS list' % tr.sigs[f].lean
+            except R2LError as e:
+                tr.inprog.clear(); tr.stack[:] = []; tr.group_of.clear(); tr.pending.clear()
+                msg = e.msg
+                if key == ('BddPartialValuation', 'index_mut'): msg = 'returns a `&mut` (IndexMut); `Rust.pvalSet` in Gen/RustShim.lean'
+                if key == ('BddValuation', 'index_mut'): msg = 'returns a `&mut` (IndexMut); an assignment `v[x] = b` is translated as `Rust.setIdx`'
+                status, note = 'not translated', msg
+        counts[status] = counts.get(status, 0) + 1
+        rows.append((f.file, f.line, what, getattr(f, 'vis', '?') + (', deprecated' if getattr(f, 'deprecated', False) else ''), status, note))
+    total = len(rows)
+    out = ['# Coverage of the Rust → Lean translation (regenerated on every run by tools/rust2lean.py)', '',
+           'Functions of the crate outside test code: %d. ' % total +
+           ', '.join('%s: %d' % (k, counts[k]) for k in sorted(counts)) + '.',
+           'Types: `Bdd` = `Arr`, `BddNode` = `Node`, `BddPointer`/`BddVariable`/integers/`BigInt` = `Nat`, `BddValuation` = `Array Bool`,',
+           '`BddPartialValuation` = `Array (Option Bool)`, structs = products of their fields, `enum`s = generated `inductive`s,',
+           '`macro_rules! bdd` is not a function (its operator table is regenerated into Gen/MacroRules.lean).', '',
+           '## Functions', '', '| source | item | visibility | status | Lean name / reason |', '|---|---|---|---|---|']
+    for file, line, what, vis, status, note in rows:
+        out.append('| %s:%d | `%s` | %s | %s | %s |' % (file, line, what, vis, status, note.replace('|', '\\|').replace('\n', ' ')))
+    return '\n'.join(out) + '\n'
+
+
+def generate4(repo, only=None, debug_assertions=False):
+    """Gen/Algo4.lean: returns (lean text, stats); raises R2LError"""
+    return generate_all(repo, only, debug_assertions, second=True, third=True, fourth=True)['Algo4.lean']
+
+
+def generate_coverage(repo):
+    """Gen/COVERAGE.md"""
+    return generate_all(repo, None, False, second=True, third=True, fourth=True)['COVERAGE.md'][0]
 
 
 def generate3(repo, only=None, debug_assertions=False):
@@ -387,6 +512,24 @@ def main(argv):
         if old3 != text3:
             with open(out3, 'w') as f:
                 f.write(text3)
+        out4 = out[:-5] + '4.lean'
+        cov_path = os.path.join(os.path.dirname(out), 'COVERAGE.md')
+        try:
+            text4, stats4 = generate4(repo, only, dbg)
+            stats = stats + stats4
+            cov = generate_coverage(repo) if not only else None
+        except R2LError as e:
+            sys.stderr.write('rust2lean: UNTRANSLATABLE (Algo4): %s\n' % e)
+            text4 = 'namespace B.Gen.Algo4\nend B.Gen.Algo4\n-- BROKEN TIE: %s\n' % str(e).replace('\n', ' ')
+            cov = None
+            status = 3
+        old4 = open(out4).read() if os.path.exists(out4) else None
+        if old4 != text4:
+            with open(out4, 'w') as f:
+                f.write(text4)
+        if cov is not None and (not os.path.exists(cov_path) or open(cov_path).read() != cov):
+            with open(cov_path, 'w') as f:
+                f.write(cov)
     if report:
         json.dump({'file': out, 'sha256': hashlib.sha256(text.encode()).hexdigest()[:16], 'lines': text.count('\n'),
                    'functions': [{'rust': q, 'lean': l, 'kind': k, 'lines': n, 'src': '%s:%d' % (f, ln)} for q, l, k, n, f, ln in stats]},
